@@ -50,12 +50,35 @@ func (r *c03FailingReader) Read(p []byte) (int, error) {
 }
 func (r *c03FailingReader) Close() error { return nil }
 
+// c03EOFReader hands out its last bytes together with io.EOF (as the io.Reader contract allows)
+type c03EOFReader struct {
+	chunks []string
+}
+
+func (r *c03EOFReader) Read(p []byte) (int, error) {
+	if len(r.chunks) == 0 {
+		return 0, io.EOF
+	}
+	n := copy(p, r.chunks[0])
+	r.chunks = r.chunks[1:]
+	if len(r.chunks) == 0 {
+		return n, io.EOF
+	}
+	return n, nil
+}
+func (r *c03EOFReader) Close() error { return nil }
+
 type c03Loader struct{ *jet.InMemLoader }
 
-func (l c03Loader) Exists(p string) bool { return p == "/bad.jet" || l.InMemLoader.Exists(p) }
+func (l c03Loader) Exists(p string) bool {
+	return p == "/bad.jet" || p == "/eof.jet" || l.InMemLoader.Exists(p)
+}
 func (l c03Loader) Open(p string) (io.ReadCloser, error) {
 	if p == "/bad.jet" {
 		return &c03FailingReader{}, nil
+	}
+	if p == "/eof.jet" {
+		return &c03EOFReader{chunks: []string{"first part, ", "middle, ", "the tail that comes with EOF"}}, nil
 	}
 	return l.InMemLoader.Open(p)
 }
@@ -72,6 +95,15 @@ func c03AfterFailedLoad() *Result {
 		var b bytes.Buffer
 		if err == nil {
 			err = safeExecute(t, &b, nil, nil)
+		}
+		if te, err2 := set.GetTemplate("/eof.jet"); err2 == nil {
+			var eb bytes.Buffer
+			want := "first part, middle, the tail that comes with EOF"
+			if err3 := safeExecute(te, &eb, nil, nil); err3 != nil || eb.String() != want {
+				return &Result{Sig: map[string]interface{}{"kind": "output", "cfg": "A", "header": "", "action": false, "comment": false, "ltrim": false, "rtrim": false, "expect": "ok", "history": "reader-eof-with-data"}, Key: "history",
+					Observed: eb.String(), Expected: want,
+					Detail: fmt.Sprintf("a template read from a reader that returns its last bytes together with io.EOF rendered %q (err %v), its source is %q", eb.String(), err3, want)}
+			}
 		}
 		if err != nil || b.String() != "plain text, copied verbatim" {
 			return &Result{Sig: map[string]interface{}{"kind": "output", "cfg": "A", "header": "", "action": false, "comment": false, "ltrim": false, "rtrim": false, "expect": "ok", "history": "after-failed-load"}, Key: "history",
@@ -98,6 +130,12 @@ func c03Replay(cfgName string) func(i int, raw json.RawMessage) Result {
 	loader := jet.NewInMemLoader()
 	loader.Set("/imp.jet", "IMPORTED TEXT "+cfg.LD+"block ib()"+cfg.RD+"ib"+cfg.LD+"end"+cfg.RD)
 	set := jet.NewSet(loader, opts...)
+	// the same configuration with the options given in the opposite order: options are independent of each other
+	rev := make([]jet.Option, len(opts))
+	for k := range opts {
+		rev[len(opts)-1-k] = opts[k]
+	}
+	setRev := jet.NewSet(loader, rev...)
 	return func(i int, raw json.RawMessage) Result {
 		var v c03Vec
 		if err := json.Unmarshal(raw, &v); err != nil {
@@ -137,7 +175,11 @@ func c03Replay(cfgName string) func(i int, raw json.RawMessage) Result {
 		var panicked interface{}
 		func() {
 			defer func() { panicked = recover() }()
-			t, err = set.Parse("/t.jet", src)
+			if i%3 == 1 {
+				t, err = setRev.Parse("/t.jet", src) // every third vector through the Set whose options came in the other order
+			} else {
+				t, err = set.Parse("/t.jet", src)
+			}
 		}()
 		if panicked != nil {
 			sig["kind"] = "panic"
